@@ -21,6 +21,7 @@ TypeOps == {"to_null", "to_bool", "to_num", "to_str", "to_arr", "to_obj", "to_em
 StructOps == {"delete", "dup_key_other_type", "nest_deep", "huge_number", "truncate_here", "byte_noise"}
 RefOps == {"ref_dangling", "ref_self", "ref_parent", "ref_wrong_kind", "ref_scalar", "ref_array_elem", "ref_escaped_ptr",
            "ref_hash_only", "ref_empty", "ref_ext_scalar", "ref_ext_array", "ref_ext_empty", "ref_ext_nonjson", "ref_ext_missing",
+           "ref_ext_tab", "ref_ext_bom", "ref_ext_null", "ref_ext_yamlsep",     \* the external file is a blob (see Blobs)
            "ref_cycle_two", "ref_array_len", "ref_array_beyond", "ref_array_neg", "ref_array_nonnum", "ref_deep_array_len",
            "ref_absent_subfield",          \* a pointer to a keyword the target schema does not have (not / items / additionalProperties)
            "ref_through_unresolved_ref",   \* a pointer that passes through a component which is itself a not-yet-resolved pure $ref
@@ -43,7 +44,14 @@ Entries == {"data", "datapath", "file"}
 SparseKinds == {"schemas", "parameters", "headers", "requestBodies", "responses", "examples", "links", "callbacks"}
 Layouts == {"none", "empty", "other_only", "same_only"}
 FullBase == [kind |-> "-", comps |-> "full"]
-Bases == {FullBase} \cup [kind : SparseKinds, comps : Layouts]
+(* "blob" bases: whole documents that are not (or hardly) a document at all -- nothing, white space of every kind (a tab  *)
+(* is not white space to the YAML reader), a byte-order mark, the JSON / YAML spellings of a non-object, bare bytes.    *)
+(* The bytes behind each name are a table of the realiser (harness/c20.go c20Blobs).                                    *)
+Blobs == {"empty", "space", "tab", "nl_tab_nl", "sp_tab_sp", "crlf", "crlf_tab", "bom", "bom_tab", "null", "arr", "obj", "str", "num", "true",
+          "tilde", "yaml_sep", "yaml_sep_end", "yaml_tab_indent", "nul_byte", "ff_bytes", "brace_open", "bracket_open", "colon", "dash",
+          "quote_open", "anchor_loop", "merge_key_scalar"}
+BlobBases == [kind : {"blob"}, comps : Blobs]
+Bases == {FullBase} \cup [kind : SparseKinds, comps : Layouts] \cup BlobBases
 CONSTANTS SparseNodes,   \* node indices used on a sparse base
           SparseOps      \* operators applied (singly) to a sparse base
 
@@ -57,6 +65,7 @@ Mutate(op, n) ==
    /\ (Len(muts) >= 1 => (n % PairStride = Seed % PairStride          \* pairs on a seeded slice of the nodes,
                            /\ entry = "data" /\ allow /\ ~yaml))      \* JSON through LoadFromData only
    /\ (base # FullBase => (muts = <<>> /\ n <= SparseNodes /\ op \in SparseOps))
+   /\ base \notin BlobBases                                          \* a blob has no nodes to mutate
    /\ muts' = Append(muts, [op |-> op, node |-> n])
    /\ UNCHANGED <<entry, allow, yaml, base>>
 
@@ -67,8 +76,9 @@ Spec == Init /\ [][Next]_vars
 (* points, the YAML rendering and the switch set to off are added for the reference operators,  *)
 (* null, delete and truncate (where location handling and the YAML reader matter)               *)
 Emitted == /\ (base = FullBase => muts # <<>>)
-           /\ (base # FullBase => (allow /\ ~yaml /\ entry \in {"file", "datapath"}))      \* the unmutated sparse document is a case
-           /\ ((yaml \/ ~allow) => entry = "data")
+           /\ ((base # FullBase /\ base \notin BlobBases) => (allow /\ ~yaml /\ entry \in {"file", "datapath"}))      \* the unmutated sparse document is a case
+           /\ (base \in BlobBases => ~yaml)                               \* a blob is bytes: every entry point, both switch settings
+           /\ ((yaml \/ (~allow /\ base \notin BlobBases)) => entry = "data")
            /\ ((base = FullBase /\ (yaml \/ ~allow \/ entry # "data")) => \E i \in DOMAIN muts : muts[i].op \in RefOps \cup {"to_null", "delete", "truncate_here"})
 
 -----------------------------------------------------------------------------
